@@ -19,6 +19,7 @@
 package resolver
 
 import (
+	"encoding/json"
 	"errors"
 	"github.com/lestrrat-go/jwx/v2/cert"
 	"github.com/nuts-foundation/go-did/did"
@@ -186,6 +187,35 @@ func GetDIDFromURL(didURL string) (did.DID, error) {
 		return did.DID{}, err
 	}
 	return parsed.DID, nil
+}
+
+// UnmarshalDocument parses a DID document that was supplied by another party (a peer or a web server).
+// It refuses a null entry in verificationMethod and a verification relationship that is neither a reference nor a verification method
+// (e.g. an empty string): did.ParseDocument, the did.Validator implementations and the key resolvers dereference those.
+func UnmarshalDocument(data []byte) (*did.Document, error) {
+	var entries struct {
+		VerificationMethod []*json.RawMessage `json:"verificationMethod"`
+	}
+	// if verificationMethod is not a list there are no entries to check
+	if err := json.Unmarshal(data, &entries); err == nil {
+		for _, entry := range entries.VerificationMethod {
+			if entry == nil {
+				return nil, errors.New("verificationMethod contains null")
+			}
+		}
+	}
+	document, err := did.ParseDocument(string(data))
+	if err != nil {
+		return nil, err
+	}
+	for _, relationships := range []did.VerificationRelationships{document.Authentication, document.AssertionMethod, document.KeyAgreement, document.CapabilityInvocation, document.CapabilityDelegation} {
+		for _, relationship := range relationships {
+			if relationship.VerificationMethod == nil {
+				return nil, errors.New("verification relationship without verification method")
+			}
+		}
+	}
+	return document, nil
 }
 
 // IsDeactivated returns true if the DID.Document has already been deactivated
